@@ -1,7 +1,10 @@
 (* Proofs/GlobProof.v — C16: afero.Glob and path/filepath.Glob return the same list (same order,
    same error) for every tree and every pattern without escapes that filepath.Glob accepts, in
-   particular for every pattern whose elements follow the grammar of Match ([well_formed]). *)
-From AF Require Import Lib.Bytes Lib.Path Model.Walk Model.Glob.
+   particular for every pattern whose elements follow the grammar of Match ([well_formed]) — for
+   EITHER value of the two behaviour switches of match.go ([afero_glob_gen bs chk]); and, when hasMeta
+   counts the backslash and Glob checks the pattern first (the values /repo has now), for EVERY
+   pattern, escapes and malformed ones included. *)
+From AF Require Import Lib.Bytes Lib.Path Gen.Consts Model.Walk Model.Glob.
 
 (* ---------- the one-directory step is the same function ---------- *)
 Lemma glob_names_eq : forall dir pat names m,
@@ -74,6 +77,12 @@ Proof.
   rewrite (IH H2). apply negb_true_iff in H1. rewrite H1. rewrite orb_false_r. reflexivity.
 Qed.
 
+Lemma has_meta_bs_std : forall p, has_meta_bs p = std_has_meta p.
+Proof. reflexivity. Qed.
+
+Lemma afero_has_meta_ne : forall bs p, no_escape p = true -> afero_has_meta bs p = has_meta p.
+Proof. intros [|] p H; [|reflexivity]. cbn [afero_has_meta]. rewrite has_meta_bs_std. apply has_meta_std. exact H. Qed.
+
 Lemma afero_dir_is_clean_glob_path : forall d0,
   (if is_empty d0 then s_dot else if beqb d0 s_slash then d0 else chop_last d0) = clean_glob_path d0.
 Proof. intros [|c d]; reflexivity. Qed.
@@ -85,16 +94,20 @@ Proof.
   cbn [length]. f_equal. apply IH. discriminate.
 Qed.
 
-Lemma clean_glob_path_shorter : forall d0,
-  has_meta (clean_glob_path d0) = true -> length (clean_glob_path d0) < length d0.
+Lemma clean_glob_path_shorter_gen : forall bs d0,
+  afero_has_meta bs (clean_glob_path d0) = true -> length (clean_glob_path d0) < length d0.
 Proof.
-  intros d0 H. unfold clean_glob_path in *. destruct d0 as [|c d]; [discriminate H|].
+  intros bs d0 H. unfold clean_glob_path in *. destruct d0 as [|c d]; [destruct bs; discriminate H|].
   destruct (beqb (c :: d) s_slash) eqn:E.
   - destruct d as [|c2 d']; [|cbn in E; rewrite andb_false_r in E; discriminate].
-    cbn in E. rewrite andb_true_r in E. apply N.eqb_eq in E. subst c. discriminate H.
+    cbn in E. rewrite andb_true_r in E. apply N.eqb_eq in E. subst c. destruct bs; discriminate H.
   - unfold chop_last. assert (L : Datatypes.S (length (removelast (c :: d))) = length (c :: d))
       by (apply length_removelast; discriminate). lia.
 Qed.
+
+Lemma clean_glob_path_shorter : forall d0,
+  has_meta (clean_glob_path d0) = true -> length (clean_glob_path d0) < length d0.
+Proof. intros d0 H. exact (clean_glob_path_shorter_gen false d0 H). Qed.
 
 Lemma path_split_fst_length : forall p, length (fst (path_split p)) <= length p.
 Proof. intros p. rewrite (path_split_app p) at 2. rewrite app_length. lia. Qed.
@@ -106,6 +119,13 @@ Proof.
   intros p H. pose proof (clean_glob_path_shorter _ H). pose proof (path_split_fst_length p). lia.
 Qed.
 
+Lemma dir_shorter_gen : forall bs p,
+  afero_has_meta bs (clean_glob_path (fst (path_split p))) = true ->
+  length (clean_glob_path (fst (path_split p))) < length p.
+Proof.
+  intros bs p H. pose proof (clean_glob_path_shorter_gen bs _ H). pose proof (path_split_fst_length p). lia.
+Qed.
+
 Lemma beqb_length : forall a b, beqb a b = true -> length a = length b.
 Proof.
   induction a as [|x a IH]; intros [|y b] H; cbn [beqb] in H; try discriminate; [reflexivity|].
@@ -113,24 +133,24 @@ Proof.
 Qed.
 
 (* ---------- main induction ---------- *)
-Lemma glob_eq_f : forall fuel depth t pat,
+Lemma glob_eq_f : forall bs chk fuel depth t pat,
   no_escape pat = true -> std_accepts_f fuel pat = true ->
   (N.of_nat (length pat) + depth < path_separators_limit)%N ->
-  afero_glob_f fuel t pat = std_glob_f fuel depth t pat.
+  afero_glob_gen_f bs chk fuel t pat = std_glob_f fuel depth t pat.
 Proof.
-  induction fuel as [|f IH]; intros depth t pat Hne Hacc Hlen; [reflexivity|].
-  cbn [afero_glob_f std_glob_f std_accepts_f] in *.
+  intros bs chk. induction fuel as [|f IH]; intros depth t pat Hne Hacc Hlen; [reflexivity|].
+  cbn [afero_glob_gen_f std_glob_f std_accepts_f] in *. unfold pattern_check_fails.
   assert (Hd : N.eqb depth path_separators_limit = false) by (apply N.eqb_neq; lia).
   rewrite Hd.
-  destruct (match_seg pat []) as [b|]; [|discriminate Hacc].
-  rewrite (has_meta_std pat Hne).
+  destruct (match_seg pat []) as [b|]; [|discriminate Hacc]. rewrite andb_false_r.
+  rewrite (has_meta_std pat Hne), (afero_has_meta_ne bs pat Hne).
   destruct (has_meta pat) eqn:Hm; cbn [negb] in *.
   2:{ destruct (tree_lookup t pat); reflexivity. }
   rewrite (surjective_pairing (path_split pat)).
   rewrite afero_dir_is_clean_glob_path.
   set (dir := clean_glob_path (fst (path_split pat))) in *.
   assert (Hned : no_escape dir = true) by (apply no_escape_dir; exact Hne).
-  rewrite (has_meta_std dir Hned).
+  rewrite (has_meta_std dir Hned), (afero_has_meta_ne bs dir Hned).
   destruct (has_meta dir) eqn:Hmd; cbn [negb] in *.
   2:{ apply glob1_eq. }
   pose proof (dir_shorter pat Hmd) as Hsh. fold dir in Hsh.
@@ -142,13 +162,20 @@ Proof.
   destruct e; try reflexivity. apply glob_over_eq.
 Qed.
 
+Theorem afero_glob_gen_eq_std : forall bs chk t pat,
+  no_escape pat = true -> std_accepts pat = true ->
+  (N.of_nat (length pat) < path_separators_limit)%N ->
+  afero_glob_gen bs chk t pat = std_glob t pat.
+Proof.
+  intros bs chk t pat Hne Hacc Hlen. unfold afero_glob_gen, std_glob. apply glob_eq_f; try assumption. lia.
+Qed.
+
+(* match.go as it is in /repo now, whatever the switches say *)
 Theorem afero_glob_eq_std : forall t pat,
   no_escape pat = true -> std_accepts pat = true ->
   (N.of_nat (length pat) < path_separators_limit)%N ->
   afero_glob t pat = std_glob t pat.
-Proof.
-  intros t pat Hne Hacc Hlen. unfold afero_glob, std_glob. apply glob_eq_f; try assumption. lia.
-Qed.
+Proof. intros t pat. apply afero_glob_gen_eq_std. Qed.
 
 (* the other half: what filepath.Glob does not accept it rejects without looking at the tree *)
 Lemma std_rejects_f : forall fuel depth t pat,
@@ -195,27 +222,31 @@ Proof.
   destruct (afero_glob1 t d file m) as [m' e]. destruct e; cbn [snd] in *; [apply IH|discriminate|exact H].
 Qed.
 
-Lemma afero_glob_fuel_f : forall fuel t pat, length pat < fuel ->
-  snd (afero_glob_f fuel t pat) <> GOutOfFuel.
+Lemma afero_glob_fuel_f : forall bs chk fuel t pat, length pat < fuel ->
+  snd (afero_glob_gen_f bs chk fuel t pat) <> GOutOfFuel.
 Proof.
-  induction fuel as [|f IH]; intros t pat Hlen; [lia|].
-  cbn [afero_glob_f].
-  destruct (has_meta pat) eqn:Hm; cbn [negb].
+  intros bs chk. induction fuel as [|f IH]; intros t pat Hlen; [lia|].
+  cbn [afero_glob_gen_f].
+  destruct (chk && pattern_check_fails pat); [discriminate|].
+  destruct (afero_has_meta bs pat) eqn:Hm; cbn [negb].
   2:{ destruct (tree_lookup t pat); discriminate. }
   rewrite (surjective_pairing (path_split pat)). rewrite afero_dir_is_clean_glob_path.
   set (dir := clean_glob_path (fst (path_split pat))).
-  destruct (has_meta dir) eqn:Hmd; cbn [negb].
+  destruct (afero_has_meta bs dir) eqn:Hmd; cbn [negb].
   2:{ apply glob1_fuel. }
-  pose proof (dir_shorter pat Hmd) as Hsh. fold dir in Hsh.
-  assert (Hr : snd (afero_glob_f f t dir) <> GOutOfFuel) by (apply IH; lia).
-  destruct (afero_glob_f f t dir) as [m e]. destruct e; cbn [snd] in *.
+  pose proof (dir_shorter_gen bs pat Hmd) as Hsh. fold dir in Hsh.
+  assert (Hr : snd (afero_glob_gen_f bs chk f t dir) <> GOutOfFuel) by (apply IH; lia).
+  destruct (afero_glob_gen_f bs chk f t dir) as [m e]. destruct e; cbn [snd] in *.
   - apply glob_over_fuel.
   - discriminate.
   - exact Hr.
 Qed.
 
+Theorem afero_glob_gen_fuel : forall bs chk t pat, snd (afero_glob_gen bs chk t pat) <> GOutOfFuel.
+Proof. intros bs chk t pat. apply afero_glob_fuel_f. lia. Qed.
+
 Theorem afero_glob_fuel : forall t pat, snd (afero_glob t pat) <> GOutOfFuel.
-Proof. intros t pat. apply afero_glob_fuel_f. lia. Qed.
+Proof. intros t pat. apply afero_glob_gen_fuel. Qed.
 
 (* ====================================================================================
    Well-formed patterns (Model/Glob.v [well_formed]: the grammar of Match, one machine pass):
@@ -552,13 +583,18 @@ Proof.
   - apply wf_accepts_f. exact H.
 Qed.
 
+Theorem afero_glob_gen_eq_std_wf : forall bs chk t pat,
+  well_formed pat = true -> (N.of_nat (length pat) < path_separators_limit)%N ->
+  afero_glob_gen bs chk t pat = std_glob t pat.
+Proof.
+  intros bs chk t pat H L. destruct (well_formed_accepted pat H) as [Hne Hacc].
+  apply afero_glob_gen_eq_std; assumption.
+Qed.
+
 Theorem afero_glob_eq_std_wf : forall t pat,
   well_formed pat = true -> (N.of_nat (length pat) < path_separators_limit)%N ->
   afero_glob t pat = std_glob t pat.
-Proof.
-  intros t pat H L. destruct (well_formed_accepted pat H) as [Hne Hacc].
-  apply afero_glob_eq_std; assumption.
-Qed.
+Proof. intros t pat. apply afero_glob_gen_eq_std_wf. Qed.
 
 (* ---------- neither Glob returns an error on a well-formed pattern ---------- *)
 Lemma glob_names_wf : forall dir file names m, wfs PTop file ->
@@ -582,28 +618,43 @@ Proof.
   subst e. apply IH.
 Qed.
 
-Lemma afero_glob_wf_f : forall fuel t q, length q < fuel -> wfs PTop q ->
-  snd (afero_glob_f fuel t q) = GNil.
+(* the pattern check of Glob (when match.go has it) lets every well-formed pattern through *)
+Lemma wfs_check_passes : forall chk q, wfs PTop q -> chk && pattern_check_fails q = false.
 Proof.
-  induction fuel as [|f IH]; intros t q Hlen H; [lia|].
-  cbn [afero_glob_f].
+  intros chk q H. unfold pattern_check_fails.
+  pose proof (match_seg_wf q [] (proj2 (well_formed_wfs q) H)) as Hm.
+  destruct (match_seg q []); [apply andb_false_r|contradiction].
+Qed.
+
+Lemma afero_glob_wf_f : forall bs chk fuel t q, length q < fuel -> wfs PTop q ->
+  snd (afero_glob_gen_f bs chk fuel t q) = GNil.
+Proof.
+  intros bs chk. induction fuel as [|f IH]; intros t q Hlen H; [lia|].
+  cbn [afero_glob_gen_f]. rewrite (wfs_check_passes chk q H).
+  rewrite (afero_has_meta_ne bs q (wfs_no_escape q PTop H)).
   destruct (has_meta q) eqn:Hm; cbn [negb].
   2:{ destruct (tree_lookup t q); reflexivity. }
   rewrite (surjective_pairing (path_split q)). rewrite afero_dir_is_clean_glob_path.
   set (dir := clean_glob_path (fst (path_split q))).
   pose proof (wfs_file q H) as Hf.
+  assert (Hwd : wfs PTop dir) by (apply wfs_dir; exact H).
+  rewrite (afero_has_meta_ne bs dir (wfs_no_escape dir PTop Hwd)).
   destruct (has_meta dir) eqn:Hmd; cbn [negb].
   2:{ apply glob1_wf. exact Hf. }
   pose proof (dir_shorter q Hmd) as Hsh. fold dir in Hsh.
-  assert (Hr : snd (afero_glob_f f t dir) = GNil) by (apply IH; [lia|apply wfs_dir; exact H]).
-  destruct (afero_glob_f f t dir) as [m e]. cbn [snd] in Hr. subst e.
+  assert (Hr : snd (afero_glob_gen_f bs chk f t dir) = GNil) by (apply IH; [lia|exact Hwd]).
+  destruct (afero_glob_gen_f bs chk f t dir) as [m e]. cbn [snd] in Hr. subst e.
   apply glob_over_wf. exact Hf.
 Qed.
 
-Theorem afero_glob_wf_no_error : forall t pat, well_formed pat = true -> snd (afero_glob t pat) = GNil.
+Theorem afero_glob_gen_wf_no_error : forall bs chk t pat,
+  well_formed pat = true -> snd (afero_glob_gen bs chk t pat) = GNil.
 Proof.
-  intros t pat H. apply afero_glob_wf_f; [lia|]. apply well_formed_wfs. exact H.
+  intros bs chk t pat H. apply afero_glob_wf_f; [lia|]. apply well_formed_wfs. exact H.
 Qed.
+
+Theorem afero_glob_wf_no_error : forall t pat, well_formed pat = true -> snd (afero_glob t pat) = GNil.
+Proof. intros t pat. apply afero_glob_gen_wf_no_error. Qed.
 
 (* ---------- what a well-formed Glob denotes ---------- *)
 Lemma glob_names_spec : forall dir file names m, wfs PTop file ->
@@ -634,25 +685,32 @@ Proof.
   - rewrite (glob1_spec t d file m H). rewrite IH. rewrite <- app_assoc. reflexivity.
 Qed.
 
-Lemma afero_glob_spec_f : forall fuel t q, length q < fuel -> wfs PTop q ->
-  afero_glob_f fuel t q = (glob_spec_f fuel t q, GNil).
+Lemma afero_glob_spec_f : forall bs chk fuel t q, length q < fuel -> wfs PTop q ->
+  afero_glob_gen_f bs chk fuel t q = (glob_spec_f fuel t q, GNil).
 Proof.
-  induction fuel as [|f IH]; intros t q Hlen H; [lia|].
-  cbn [afero_glob_f glob_spec_f].
+  intros bs chk. induction fuel as [|f IH]; intros t q Hlen H; [lia|].
+  cbn [afero_glob_gen_f glob_spec_f]. rewrite (wfs_check_passes chk q H).
+  rewrite (afero_has_meta_ne bs q (wfs_no_escape q PTop H)).
   destruct (has_meta q) eqn:Hm; cbn [negb].
   2:{ destruct (tree_lookup t q); reflexivity. }
   rewrite (surjective_pairing (path_split q)). rewrite afero_dir_is_clean_glob_path. cbn [fst snd].
   set (dir := clean_glob_path (fst (path_split q))).
   pose proof (wfs_file q H) as Hf.
+  assert (Hwd : wfs PTop dir) by (apply wfs_dir; exact H).
+  rewrite (afero_has_meta_ne bs dir (wfs_no_escape dir PTop Hwd)).
   destruct (has_meta dir) eqn:Hmd; cbn [negb].
   2:{ rewrite (glob1_spec t dir _ [] Hf). reflexivity. }
   pose proof (dir_shorter q Hmd) as Hsh. fold dir in Hsh.
-  rewrite (IH t dir) by (try lia; apply wfs_dir; exact H).
+  rewrite (IH t dir) by (try lia; exact Hwd).
   rewrite (glob_over_spec t _ _ [] Hf). reflexivity.
+Qed.
+
+Theorem afero_glob_gen_denotes : forall bs chk t pat, well_formed pat = true ->
+  afero_glob_gen bs chk t pat = (glob_spec t pat, GNil).
+Proof.
+  intros bs chk t pat H. apply afero_glob_spec_f; [lia|]. apply well_formed_wfs. exact H.
 Qed.
 
 Theorem afero_glob_denotes : forall t pat, well_formed pat = true ->
   afero_glob t pat = (glob_spec t pat, GNil).
-Proof.
-  intros t pat H. apply afero_glob_spec_f; [lia|]. apply well_formed_wfs. exact H.
-Qed.
+Proof. intros t pat. apply afero_glob_gen_denotes. Qed.
